@@ -55,6 +55,7 @@ def run(facts, rep, tier):
     c = facts.impl
     run_d5(facts, rep)
     run_d6(facts, rep)
+    run_d7(facts, rep)
     gsa = [h for h in c.user_fns() if h["fn"].endswith("generate_serde_attr")]
     if not gsa:
         # by role: the fn whose templates contain skip_serializing_if
@@ -265,3 +266,29 @@ def run_d6(facts, rep):
             rep.ob("C03.D6", "variant-wire-name-is-raw:" + key, not bad, "the variant's wire name is the schema's string as written" if not bad else
                    "the variant's wire name is `%s`: it has been through a case conversion / sanitiser, so the tag value or key on the wire no longer matches and valid instances are rejected" % bad[0][:140], x.get("sp"))
     rep.floor("C03.D6", "tagged-variant constructions", n, 6)
+
+
+# ---------------------------------------------------------------- D7 an absent array keyword constrains nothing
+def run_d7(facts, rep):
+    """In the array conversion a position / item whose schema is not stated (no `items`, no `additionalItems`) is converted
+    from a stand-in schema. JSON Schema says an absent keyword admits anything: the stand-in must be `true`, never `false`
+    (which would make the position uninhabited and reject every instance)."""
+    from lib import Canon
+    c = facts.impl
+    n_true = 0
+    for h in c.user_fns():
+        if not h["fn"].endswith("TypeSpace::convert_array"):
+            continue
+        cn = Canon(c, h, 5)
+        for n, anc in walk(h["body"]):
+            if n.get("k") == "mcall" and n["name"].startswith("id_for_schema") and len(n.get("args", [])) >= 2:
+                t = cn.r(n["args"][1])
+                if "Schema::Bool(" not in t:
+                    continue
+                key = "absent-keyword-means-any#%d" % (sum(1 for o in rep.obligations if o["key"].startswith("C03.D7/absent-keyword-means-any#")))
+                ok = "Schema::Bool(false)" not in t
+                if ok:
+                    n_true += 1
+                rep.ob("C03.D7", key, ok, "the stand-in for an unstated item schema is `true`" if ok else
+                       "a tuple position / item whose schema is not stated is converted from `%s`: `false` admits nothing, so the position gets an uninhabited type and every valid instance is rejected" % t[:100], n.get("sp"))
+    rep.floor("C03.D7", "stand-in schemas for unstated array items", n_true, 2)
